@@ -7,6 +7,10 @@
 // optional-optional / optional-nullopt / optional-value and variant-variant forms; besides the results, the number
 // of calls of PO's <, <=, >, >= is compared (a relation derived from another operator shows up there even for
 // ordered values).  expected has no relational operators in tetl.
+// Second part ("self" cells): the SAME object on both sides of every relation (optional, optional<T&>, variant), the
+// optional compared with its own contained object, and <=> where both libraries provide it, for payloads whose
+// comparisons are not reflexive / not consistent (NaN, PO's unordered value, `Weird`: == and != both false, < and >
+// both true, <= and >= both false).  std compares the payloads even then; an identity shortcut is a divergence.
 #include "vf.hpp"
 #include "vf_contract.hpp"
 #include "vf_tracked.hpp"
@@ -97,7 +101,7 @@ void opt_cells(char const* subj, char const* other)
     for (int ya = 0; ya <= 3; ++ya) {
         for (int yb = 0; yb <= 3; ++yb) {
             char op[80], sit[64];
-            std::snprintf(op, sizeof op, "relational(optional,%s | value | nullopt)", other);
+            std::snprintf(op, sizeof op, "relational(optional, %s / value / nullopt)", other);
             std::snprintf(sit, sizeof sit, "a-%s,b-%s", vname(ya), vname(yb));
             vf::crumb(subj, op, sit, "ya=%d yb=%d (0 empty, 1..3 = values 0, 1, unordered)", ya, yb);
             Obs so, eo;
@@ -117,7 +121,7 @@ void optref_cells()
         for (int yb = 0; yb <= 3; ++yb) {
             char sit[64];
             std::snprintf(sit, sizeof sit, "a-%s,b-%s", vname(ya), vname(yb));
-            vf::crumb("optional<double&>", "relational(optional<T&>,optional<T&> | optional<T> | value | nullopt)", sit, "ya=%d yb=%d", ya, yb);
+            vf::crumb("optional<double&>", "relational(optional<T&>, optional<T&> / optional<T> / value / nullopt)", sit, "ya=%d yb=%d", ya, yb);
             using ER   = etl::optional<double&>;
             using SO   = std::optional<double>;
             ER const a = ya ? ER(tg[ya - 1]) : ER();
@@ -187,6 +191,123 @@ void var_cells(char const* subj)
     }
 }
 
+struct Weird { // deliberately inconsistent comparisons, all counted
+    int v;
+    static inline long calls[6] = {0, 0, 0, 0, 0, 0};
+    friend bool operator==(Weird, Weird) { return (++calls[0], false); }
+    friend bool operator!=(Weird, Weird) { return (++calls[1], false); }
+    friend bool operator<(Weird, Weird) { return (++calls[2], true); }
+    friend bool operator<=(Weird, Weird) { return (++calls[3], false); }
+    friend bool operator>(Weird, Weird) { return (++calls[4], true); }
+    friend bool operator>=(Weird, Weird) { return (++calls[5], false); }
+};
+template <>
+Weird val<Weird>(int k)
+{
+    return Weird{k};
+}
+void obs_weird_calls(Obs& r)
+{
+    r.i("Weird operator< calls", Weird::calls[2]);
+    r.i("Weird operator<= calls", Weird::calls[3]);
+    r.i("Weird operator> calls", Weird::calls[4]);
+    r.i("Weird operator>= calls", Weird::calls[5]);
+    r.i("Weird operator==/!= calls", Weird::calls[0] + Weird::calls[1]); // tetl may legitimately use == for !=
+    for (long& c : Weird::calls) { c = 0; }
+}
+template <typename A, typename B>
+inline constexpr bool kHasSpaceship = requires(A const& a, B const& b) { a <=> b; };
+// three-way result as -1/0/+1/2(unordered); only where BOTH libraries provide <=> for the operand types
+template <typename ES, typename SS, typename A, typename B>
+void obs_spaceship(Obs& r, A const& a, B const& b)
+{
+    if constexpr (kHasSpaceship<ES, ES> && kHasSpaceship<SS, SS>) {
+        auto c = a <=> b;
+        r.i("a<=>b", c < 0 ? -1 : c > 0 ? 1 : c == 0 ? 0 : 2);
+    }
+}
+
+// same optional object on both sides; the optional against its own contained object; against nullopt
+template <typename NS, typename T>
+void opt_self_world(Obs& r, int y)
+{
+    using O   = typename NS::template optional<T>;
+    O const a = y ? O(val<T>(y - 1)) : O();
+    for (long& c : PO::calls) { c = 0; }
+    for (long& c : Weird::calls) { c = 0; }
+    rel6(r, a, a);
+    obs_spaceship<etl::optional<T>, std::optional<T>>(r, a, a);
+    if (y != 0) {
+        T const& own = *a; // the optional's own contained object
+        rel6(r, a, own);
+    } else {
+        rel_nullopt(r, a, NS::nullopt);
+    }
+    rel_nullopt(r, a, NS::nullopt);
+    obs_calls(r);
+    obs_weird_calls(r);
+}
+template <typename T>
+void opt_self_cells(char const* subj)
+{
+    for (int y = 0; y <= 3; ++y) {
+        vf::crumb(subj, "relational(a,a) same object / a vs its own contained value / nullopt", vname(y), "y=%d (0 empty, 1..3 = values 0, 1, unordered/NaN)", y);
+        Obs so, eo;
+        opt_self_world<Std, T>(so, y);
+        opt_self_world<Etl, T>(eo, y);
+        vf::cover("relations with the same object on both sides: optional", vf::mix(vf::fnv(subj), y), true);
+        compare(eo, so);
+    }
+}
+void optref_self_cells()
+{
+    double tg[3] = {0.0, 1.0, std::numeric_limits<double>::quiet_NaN()};
+    for (int y = 0; y <= 3; ++y) {
+        vf::crumb("optional<double&>", "relational(a,a) same object / a vs the bound object / nullopt", vname(y), "y=%d", y);
+        using ER    = etl::optional<double&>;
+        using SO    = std::optional<double>;
+        ER const a  = y ? ER(tg[y - 1]) : ER();
+        SO const ma = y ? SO(tg[y - 1]) : SO();
+        Obs so, eo;
+        rel6(eo, a, a);
+        rel6(so, ma, ma);
+        if (y != 0) {
+            rel6(eo, a, tg[y - 1]); // the very object it is bound to
+            rel6(so, ma, *ma);
+        }
+        rel_nullopt(eo, a, etl::nullopt);
+        rel_nullopt(so, ma, std::nullopt);
+        vf::cover("relations with the same object on both sides: optional<T&>", vf::mix(78, y), true);
+        compare(eo, so);
+    }
+}
+template <typename... Ts>
+void var_self_cells(char const* subj)
+{
+    constexpr std::size_t N = sizeof...(Ts);
+    for (std::size_t j = 0; j < N; ++j) {
+        for (int k = 0; k < 3; ++k) {
+            char sit[64];
+            std::snprintf(sit, sizeof sit, "from-index-%zu,a-%s", j, vname(k + 1));
+            vf::crumb(subj, "relational(v,v) same object", sit, "v=(%zu,%d)", j, k);
+            Obs so, eo;
+            auto run = [&]<typename NS>(NS, Obs& r) {
+                auto const a = VarRel<NS, Ts...>::mk(j, k);
+                for (long& c : PO::calls) { c = 0; }
+                for (long& c : Weird::calls) { c = 0; }
+                rel6(r, a, a);
+                obs_spaceship<etl::variant<Ts...>, std::variant<Ts...>>(r, a, a);
+                obs_calls(r);
+                obs_weird_calls(r);
+            };
+            run(Std{}, so);
+            run(Etl{}, eo);
+            vf::cover("relations with the same object on both sides: variant", vf::mix(vf::fnv(subj), j * 3 + k), true);
+            compare(eo, so);
+        }
+    }
+}
+
 void run_all()
 {
     opt_cells<double, double>("optional<double>", "optional<double>");
@@ -198,6 +319,18 @@ void run_all()
     var_cells<int, double>("variant<int,double>");
     var_cells<PO, double, int>("variant<partially-ordered,double,int>");
     var_cells<double>("variant<double>");
+    opt_self_cells<double>("optional<double>");
+    opt_self_cells<PO>("optional<partially-ordered>");
+    opt_self_cells<Weird>("optional<inconsistent-comparisons>");
+    opt_self_cells<int>("optional<int>");
+    optref_self_cells();
+    var_self_cells<int, double>("variant<int,double>");
+    var_self_cells<PO, double, int>("variant<partially-ordered,double,int>");
+    var_self_cells<Weird, int>("variant<inconsistent-comparisons,int>");
+    var_self_cells<double>("variant<double>");
+    var_self_cells<Weird, double, Weird>("variant<inconsistent-comparisons,double,inconsistent-comparisons>");
+    opt_cells<Weird, Weird>("optional<inconsistent-comparisons>", "optional<inconsistent-comparisons>");
+    var_cells<Weird, int>("variant<inconsistent-comparisons,int>");
     vf::sample("relations over unordered payloads", "payload values 0, 1, NaN/unordered; every ordered pair of states; six relations in both argument orders; call counts of the payload's own <, <=, >, >= compared for the instrumented type");
 }
 
